@@ -145,6 +145,9 @@ def _cases(arg):
                 out.append(rec)
                 continue
             rec["text"] = text[:600]
+            after, meta_after = _project(prog)
+            if after != orig or meta_after != meta:
+                rec["altered"] = [c["name"] + str(c["p"])[:60] for c in after][:8]
             try:
                 loaded = io.loads(text, ir=fmt)
                 rec["loaded"], rec["meta_loaded"] = _project(loaded)
@@ -257,6 +260,8 @@ def c14(chk):
             if "save_error" in rec:
                 chk.violation("SaveFails", dict(f, error=rec["save_error"].split(":")[0]), dict(det, msg=rec["save_error"]))
                 continue
+            if "altered" in rec:
+                chk.violation("SavingAltersProgram", f, dict(det, after=rec["altered"]))
             if "load_error" in rec:
                 chk.violation("LoadFails", dict(f, error=rec["load_error"].split(":")[0]), dict(det, msg=rec["load_error"], text=rec["text"]))
                 continue
